@@ -320,13 +320,50 @@ class ExcAnalysis:
             yield 'IndexError', f'{txt(node)} index not bounded by the ' \
                                 f'guards'
 
+    def _split_fields(self, func):
+        '''Names bound to tokens of a split line: targets of an unpacking
+        assignment `a, *b, c = <text>.split()` and the loop / comprehension
+        variables that range over such a (starred) target.'''
+        cache = getattr(self, '_split_cache', None)
+        if cache is None:
+            cache = self._split_cache = {}
+        if func.key in cache:
+            return cache[func.key]
+        fields = set()
+        for node in ast.walk(func.node):
+            if isinstance(node, ast.Assign) and isinstance(
+                    node.value, ast.Call) and call_name(
+                        node.value) == 'split':
+                for tgt in node.targets:
+                    if isinstance(tgt, (ast.Tuple, ast.List)):
+                        for elt in tgt.elts:
+                            inner = elt.value if isinstance(
+                                elt, ast.Starred) else elt
+                            if isinstance(inner, ast.Name):
+                                fields.add(inner.id)
+        changed = True
+        while changed:
+            changed = False
+            for node in ast.walk(func.node):
+                if isinstance(node, (ast.For, ast.comprehension)) and \
+                        isinstance(node.iter, ast.Name) and \
+                        node.iter.id in fields and isinstance(
+                            node.target, ast.Name) and \
+                        node.target.id not in fields:
+                    fields.add(node.target.id)
+                    changed = True
+        cache[func.key] = fields
+        return fields
+
     def _primitive(self, func, call, parents):
         cname = call_name(call)
         if cname in ('int', 'float') and isinstance(call.func, ast.Name) \
                 and call.args:
             arg = call.args[0]
             if any(isinstance(s, ast.Call) and call_name(s) == 'split'
-                   for s in ast.walk(arg)):
+                   for s in ast.walk(arg)) or (
+                       isinstance(arg, ast.Name) and
+                       arg.id in self._split_fields(func)):
                 # guarded by <same expr>.isdigit() ?
                 cur = call
                 guarded = False
